@@ -32,6 +32,7 @@ func runC01(c *Ctx, pr *PropertyRun) {
 
 	c01Dispatch(c, pr, "C01")
 	c01Adapter(c, pr, "C01")
+	serveErrorTable(c, pr, "C01")
 	fsFaultRules(c, pr, "C01")
 	c01Structure(c, pr)
 }
